@@ -1449,6 +1449,12 @@ func (db *DB) verifyAndSyncWithExecutor(ctx context.Context, checkpointing bool,
 		return syncResult{}, fmt.Errorf("sync: %w", err)
 	}
 
+	// A full copy of the database and the WAL up to its last commit cannot
+	// be behind the database file.
+	if info.snapshotting && result.synced {
+		exec.state.dbAheadOfSync = false
+	}
+
 	result.origWALSize = origWALSize
 	return result, nil
 }
@@ -1780,7 +1786,7 @@ func (db *DB) verifyWithExecutor(ctx context.Context, exec *syncExecutor) (info 
 		// If we previously synced to the exact end of the WAL, this truncation
 		// is expected (normal checkpoint behavior). Reset position and continue
 		// incrementally rather than triggering a full snapshot. See issue #927.
-		if exec.state.syncedToWALEnd {
+		if exec.state.syncedToWALEnd && !exec.state.dbAheadOfSync {
 			// Read new WAL header to get current salt values
 			hdr, err := readWALHeader(db.WALPath())
 			if err != nil {
@@ -1802,6 +1808,12 @@ func (db *DB) verifyWithExecutor(ctx context.Context, exec *syncExecutor) (info 
 		}
 
 		info.reason = "wal truncated by another process"
+		if exec.state.dbAheadOfSync {
+			// A checkpoint of ours ran but failed before its boundary snapshot:
+			// frames committed after our last copy are in the database file
+			// and no longer in the WAL.
+			info.reason = "wal truncated by an interrupted checkpoint, snapshotting"
+		}
 		return info, nil
 	}
 
@@ -1865,6 +1877,16 @@ func (db *DB) verifyWithExecutor(ctx context.Context, exec *syncExecutor) (info 
 		db.Logger.Log(ctx, internal.LevelTrace, "wal restarted",
 			"salt1", salt1,
 			"salt2", salt2)
+
+		// A non-PASSIVE checkpoint of ours restarted the WAL but failed before
+		// its boundary snapshot. Frames committed between our last copy and
+		// the checkpoint are in the database file and gone from the WAL.
+		if exec.state.dbAheadOfSync {
+			info.offset = WALHeaderSize
+			info.salt1, info.salt2 = salt1, salt2
+			info.reason = "wal restarted by an interrupted checkpoint, snapshotting"
+			return info, nil
+		}
 
 		// If the previous WAL generation kept growing past our last synced
 		// position then frames were written, and checkpointed into the database,
@@ -2687,6 +2709,8 @@ func (db *DB) checkpointWithExecutor(ctx context.Context, mode string, exec *syn
 	// backfilled and truncated unseen, so TRUNCATE must take the boundary
 	// snapshot unconditionally.
 	if mode != CheckpointModeTruncate && walFrameN <= preCheckpointFrameN {
+		// No commit landed between the sealing copy and the checkpoint.
+		exec.state.dbAheadOfSync = false
 		result, err = db.verifyAndSyncWithExecutor(ctx, true, exec, 0)
 		if err != nil {
 			return false, fmt.Errorf("cannot copy wal after checkpoint: %w", err)
